@@ -792,18 +792,46 @@ func checkC08(w *World, r *Report) {
 	}
 	okProt := idx >= 0
 	r.Check(allLinked && okProt, "K-2", "RigoApp.Commit:version-equality", "unequal versions of the four controllers' stores panic before the last-block record is written", "RigoApp.Commit no longer refuses to record a block whose stores are at different versions", fnSite(w, cm))
-	for _, ref := range []fref{{"ctrlers/gov", "GovCtrler", "Commit"}, {pkgStake, "StakeCtrler", "Commit"}} {
-		fn := needFn(r, "K-2", w, ref)
+	for _, ct := range []struct {
+		ref     fref
+		ledgers []string
+	}{
+		{fref{"ctrlers/gov", "GovCtrler", "Commit"}, []string{"paramsLedger", "proposalLedger", "frozenLedger"}},
+		{fref{pkgStake, "StakeCtrler", "Commit"}, []string{"delegateeLedger", "frozenLedger", "rewardLedger"}},
+	} {
+		fn := needFn(r, "K-2", w, ct.ref)
 		if fn == nil {
 			continue
 		}
+		// under "two of its ledgers report different versions" the commit has no
+		// successful path; the pairs for which that holds must connect all ledgers
+		par := map[string]string{}
+		var fnd func(x string) string
+		fnd = func(x string) string {
+			if par[x] == "" || par[x] == x {
+				par[x] = x
+				return x
+			}
+			par[x] = fnd(par[x])
+			return par[x]
+		}
 		n := 0
-		for _, g := range w.Guards(fn) {
-			if strings.Contains(g.Cond, ".Commit()#1 != ") {
-				n++
+		for a := 0; a < len(ct.ledgers); a++ {
+			for b := a + 1; b < len(ct.ledgers); b++ {
+				f := AR(`\.`+ct.ledgers[a]+`\.Commit\(\)#1$`, "!=", `\.`+ct.ledgers[b]+`\.Commit\(\)#1$`)
+				if ok, _ := w.failsUnder(fn, nil, f); ok {
+					n++
+					par[fnd(ct.ledgers[a])] = fnd(ct.ledgers[b])
+				}
 			}
 		}
-		r.Check(n >= 2, "K-2", refStr(ref)+":version-equality", "unequal ledger versions fail the commit", refStr(ref)+" no longer compares the versions of its ledgers", fnSite(w, fn))
+		linked := n >= len(ct.ledgers)-1
+		for _, l := range ct.ledgers[1:] {
+			if fnd(l) != fnd(ct.ledgers[0]) {
+				linked = false
+			}
+		}
+		r.Check(linked, "K-2", refStr(ct.ref)+":version-equality", "unequal ledger versions fail the commit", refStr(ct.ref)+" no longer compares the versions of its ledgers", fnSite(w, fn))
 	}
 	bb := needFn(r, "K-2", w, fref{"node", "RigoApp", "BeginBlock"})
 	if bb != nil {
